@@ -124,6 +124,10 @@ def time_evolution_derivatives(
                     "term {} will be ignored.".format(term_1)
                 )
             r = term_1.coefficient.real / n_steps
+            if r == 0:
+                # A term with zero coefficient does not contribute to the derivative
+                # (and its shift pi / (4 r) is undefined).
+                continue
             output_factors.append(r * factor)
             shift = factor * (np.pi / (4.0 * r))
 
